@@ -139,6 +139,23 @@ class World:
             for u in t["units"]:
                 u["scale_val"] = amount_value(be, u["scale"]) if u["scale"] != "-" else None
 
+    def pairs(self, t, rng=None):
+        """ordered unit pairs of a type: all of them; for the two very large synthetic types (more units
+        than an 8-bit discriminant can tell apart) the diagonal sample, every pair 256 positions apart in
+        both directions, neighbours, and a random sample"""
+        n = t["n"]
+        if n <= 40:
+            return [(i, j) for i in range(n) for j in range(n)]
+        out = []
+        for i in range(n):
+            for d in (256, 128, 255, 257):
+                if i + d < n:
+                    out += [(i, i + d), (i + d, i)]
+        out += [(i, i) for i in range(0, n, 37)] + [(i, i + 1) for i in range(0, n - 1, 41)]
+        if rng is not None:
+            out += [(rng.below(n), rng.below(n)) for _ in range(60)]
+        return out
+
     def withref(self):
         return [t for t in self.types if t["kind"] == "withref"]
 
